@@ -12,7 +12,7 @@ def run(tier, seed, replay=None):
     check.coverage['rule'] = ('tls: each case: two certificate sets freshly produced by the repository\'s generator (trusted, other) and one self-signed client certificate (rcgen); server T presents the '
                               'trusted server certificate, server O the other set\'s, both started with the trusted CA; clients trust the trusted CA and present {trusted client cert, other-CA client cert, '
                               'self-signed, the trusted *server* certificate, nothing}; every pairing is tried through the client library (4 identities) and through a raw QUIC peer (5), outcome = whether a '
-                              'publisher registration is acknowledged; then, in the same process, a client configured with the OTHER CA (presenting the trusted client certificate) must refuse server T and talk to server O; finally a server whose --cert file is a PEM bundle (other leaf + other CA), started with the trusted CA, is tried by clients trusting the other CA: the other-CA client must be refused, the trusted client admitted; non-trivial = distinct (server, identity, path)')
+                              'publisher registration is acknowledged; then, in the same process, a client configured with the OTHER CA (presenting the trusted client certificate) must refuse server T and talk to server O; finally a server whose --cert file is a PEM bundle (other leaf + other CA), started with the trusted CA, is tried by clients trusting the other CA: the other-CA client must be refused, the trusted client admitted; and a set renewed in place three times (the generator run again into the same directories, first without expiry, then with: the new files are shorter than the ones they replace) must still work for localhost after each renewal; non-trivial = distinct (server, identity, path)')
     check.coverage['trusted_base'] = TRUSTED_BASE_COMMON + [
         'translator/tlsfacts.py: each configuration fact is matched against the exact construct that establishes it (verifier constructor, root store source, builder chains, server name, generator parameters); any `dangerous()` / custom verifier under client/src or server/src makes the translation fail',
         'modelled, not verified: rustls 0.21 / webpki / ring (certificate parsing, signature verification, validity periods, path building) are represented by a symbolic PKI in which "issuer_key = k" means a valid signature by k; the handshake itself is exercised by the tls scenarios with fresh keys each run',
